@@ -272,7 +272,7 @@ Proof.
   intros He Hk.
   assert (Wf : forall f, fc_on (fcfg c f) = true -> is_wf (nsp f)) by (intros f _; apply nat_is_wf; apply Hport).
   apply (all_exits c nat_not_pf Hwf nat_udp astate (mR nsp) (fun _ => a_clean)
-           (fun f a => a = a_nat_full (map snd (fc_body (fcfg c f)))) (fun _ => nat_inv) (fun f => a_nd (nsp f))
+           (fun f a => a = a_nat_full (map snd (fc_body (fcfg c f)))) (fun _ => nat_inv) (fun f => a_nd (nsp f)) (fun _ => false)
            (mS nsp nAS) (mRr nsp nAR)).
   - apply (m_sim c TNat nsp (fun _ => eq_refl) (fun _ => eq_refl) Wf (setup_prog c) nAS nat_HprogS (fun f _ => nat_HonS f)).
   - apply (m_sim c TNat nsp (fun _ => eq_refl) (fun _ => eq_refl) Wf (restore_prog c) nAR nat_HprogR (fun f _ => nat_HonR f)).
@@ -281,14 +281,15 @@ Proof.
   - apply m_win.
   - apply m_win.
   - intro f. unfold nat_inv, a_clean. cbn. intuition lia.
-  - intros F f n a ok n' a' tr Hi H. eapply nat_setup_inv; eassumption.
-  - intros F f n a ok n' a' tr Hi H. eapply nat_restore_inv; eassumption.
+  - intros F f n a ok n' a' tr Hi _ H. eapply nat_setup_inv; eassumption.
+  - intros k0 f n a ok n' a' tr Hi H. left. eapply nat_restore_inv; eassumption.
   - intros f n a ok n' a' tr _ Hi H. exact (proj2 (nat_restore_nf _ _ _ _ _ _ _ _ Hi H)).
   - intros f n a ok n' a' tr _ Hi H. eapply nat_setup_nf; eassumption.
   - intros f k0 n a ok n' a' tr _ -> H. eapply nat_restore_one; exact H.
   - apply (m_fin c TNat nsp (fun _ => eq_refl) (fun _ => eq_refl) nat_Hown nat_Hmark nat_Hnft).
   - apply (m_nd c TNat nsp (fun _ => eq_refl) (fun _ => eq_refl) nat_Hown nat_Hnft).
   - apply (m_init c TNat nsp (fun _ => eq_refl) (fun _ => eq_refl) nat_Hown nat_Hmark); assumption.
+  - cbv zeta. apply andb_false_iff. right. destruct (nth_cmd _ _); reflexivity.
 Qed.
 End NatMethod.
 
@@ -582,7 +583,7 @@ Proof.
   apply (all_exits c tp_not_pf Hwf tp_udp astate (mR tsp) (fun _ => a_clean)
            (fun f a => a = a_tp_full (tAB f))
            (fun f a => fc_on (fcfg c f) = true -> tp_inv (fc_port (fcfg c f)) a)
-           (fun f => a_nd (tsp f)) (mS tsp tAS) (mRr tsp tAR)).
+           (fun f => a_nd (tsp f)) (fun _ => false) (mS tsp tAS) (mRr tsp tAR)).
   - apply (m_sim c TMangle tsp (fun _ => eq_refl) (fun _ => eq_refl) Wf (setup_prog c) tAS tp_HprogS (fun f _ => tp_HonS f)).
   - apply (m_sim c TMangle tsp (fun _ => eq_refl) (fun _ => eq_refl) Wf (restore_prog c) tAR tp_HprogR (fun f _ => tp_HonR f)).
   - apply m_ext.
@@ -590,13 +591,14 @@ Proof.
   - apply m_win.
   - apply m_win.
   - intros f _. unfold tp_inv, a_clean. cbn. intuition lia.
-  - intros F f n a ok n' a' tr Hi H On. eapply tp_setup_inv; [exact (tp_ord f On) | exact (Hi On) | exact H].
-  - intros F f n a ok n' a' tr Hi H On. eapply tp_restore_inv; [exact (Hi On) | exact H].
+  - intros F f n a ok n' a' tr Hi _ H On. eapply tp_setup_inv; [exact (tp_ord f On) | exact (Hi On) | exact H].
+  - intros k0 f n a ok n' a' tr Hi H. left. intro On. eapply tp_restore_inv; [exact (Hi On) | exact H].
   - intros f n a ok n' a' tr On Hi H. exact (proj2 (tp_restore_nf _ _ _ _ _ _ _ _ (Hi On) H)).
   - intros f n a ok n' a' tr On Hi H. eapply tp_setup_nf; [exact (Hi On) | exact H].
   - intros f k0 n a ok n' a' tr On -> H. eapply tp_restore_one; [exact (tp_ord f On) | exact H].
   - apply (m_fin c TMangle tsp (fun _ => eq_refl) (fun _ => eq_refl) tp_Hown tp_Hmark tp_Hnft).
   - apply (m_nd c TMangle tsp (fun _ => eq_refl) (fun _ => eq_refl) tp_Hown tp_Hnft).
   - apply (m_init c TMangle tsp (fun _ => eq_refl) (fun _ => eq_refl) tp_Hown tp_Hmark); assumption.
+  - cbv zeta. apply andb_false_iff. right. destruct (nth_cmd _ _); reflexivity.
 Qed.
 End TpMethod.
